@@ -35,7 +35,7 @@ Keep == UNCHANGED <<tid, bad>> /\ st' = st + 1
 TBegin == Live /\ pc = "idle" /\ st = 0 /\ Begin("c1") /\ Keep
 TExists == Live /\ Exists /\ (pc' = "read") = (T.read # "none") /\ Keep
 TRead == Live /\ Read /\ (pc' = "diff") = (T.read = "ok") /\ Keep
-TGen == Live /\ T.generated /\ Gen /\ Keep
+TGen == Live /\ T.generated /\ GenData /\ Keep
 TDiff == Live /\ Diff /\ (pc' = "save") = T.saved /\ (pc' = "idle") = (T.outcome # "data") /\ Keep
 TWrite == Live /\ T.saved /\ Write /\ Keep
 TReturn == Live /\ T.outcome = "data" /\ Return /\ Keep
@@ -47,7 +47,7 @@ PClauses(u) ==
   \cup (IF u.outcome = "data" /\ ~u.second_ok THEN {"second_request_returns_other_data"} ELSE {})
 \* the request is over in the model (pc back to idle after at least Begin): judge and load the next scenario
 TFinish == /\ Live /\ st > 0 /\ pc = "idle"
-           /\ bad' = Verdict(PClauses(T) \cup (IF (T.outcome = "data") = (Len(hist) = 1 /\ hist[1][2] = "data") THEN {} ELSE {"M:outcome_differs_from_model"}))
+           /\ bad' = Verdict(PClauses(T) \cup (IF (T.outcome = "data") = (Len(hist) = 1 /\ hist[1].kind = "data") THEN {} ELSE {"M:outcome_differs_from_model"}))
            /\ tid' = tid + 1 /\ st' = 0 /\ Load(tid + 1)
 TDiverge == /\ Live /\ ~(st > 0 /\ pc = "idle") /\ ~Explained
             /\ bad' = Verdict(PClauses(T) \cup {"M:request_steps_not_explained_by_Cache"})
